@@ -89,6 +89,8 @@ func (st *state) dispatch(toks []string) (string, string) {
 		return wrOp(toks), ""
 	case "fmtfloat", "parsefloat":
 		return floatOp(toks), ""
+	case "geo":
+		return geoOp(toks), ""
 	case "watch", "feed", "replicate", "watchp", "feedp", "watchx", "unwatchx":
 		now := time.Now().UnixMilli()
 		return st.feedOp(toks), fmt.Sprintf(" now=%d", now)
